@@ -14,7 +14,7 @@
    Generators (produce, fetch, offsets, offset commit, offset fetch) are modelled by (items yielded, outcome);
    outcome [Ok []] = exhausted normally with the whole buffer consumed.  Every statement is for ALL responses. *)
 From AV Require Import Base.Util Model.Prim Model.Crc Model.MsgSet Model.KafkaSpecResp Model.Responses Model.RespView
-     Proofs.RespPrim Proofs.RespRoundTrip Proofs.RespMsgSet Proofs.RespC05.
+     Proofs.Truncation Proofs.RespPrim Proofs.RespRoundTrip Proofs.RespMsgSet Proofs.RespAfkakSet Proofs.RespC05.
 
 (* ================================================================== 1. responses, one theorem per API / version *)
 
@@ -148,6 +148,15 @@ Theorem C05_msgset_roundtrip_lazy : forall gz orc,
 Proof. exact c05_msgset_lazy. Qed.
 Print Assumptions C05_msgset_roundtrip_lazy.
 
+(* the same for snappy wrappers (codec bits 2) where python-snappy is installed ([sn_avail]); all wrappers of one
+   tree use one codec *)
+Theorem C05_msgset_roundtrip_snappy : forall sn orc,
+  sn_avail orc = true -> (forall x, sn_dec orc (sn x) = Ok x) ->
+  forall d ts, (kdepth_forest ts < d)%nat -> forallb (wf_ktree_c CODEC_SNAPPY sn) ts = true ->
+  dec_set_all d orc (enc_kforest sn ts) = Ok (view_log (log_of_forest ts)).
+Proof. exact c05_msgset_snappy. Qed.
+Print Assumptions C05_msgset_roundtrip_snappy.
+
 (* offsets inside a wrapper.  Format 0: as stored. *)
 Theorem C05_wrapper_offsets_v0 : forall gz orc,
   (forall x, gz_dec orc (gz x) = Ok x) ->
@@ -195,7 +204,53 @@ Theorem C05_fetch_sets_v2 : forall gz orc,
 Proof. exact fetch_sets_v2. Qed.
 Print Assumptions C05_fetch_sets_v2.
 
-(* ================================================================== 3. outside the supported versions
+(* ================================================================== 3. afkak's own encoder, then its decoder:
+   the identity on messages.  (Model.MsgSet.encode_message_set_from = KafkaCodec._encode_message_set,
+   create_gzip_message; [expected] = the messages handed to the encoder as they look on the wire - format 0 has no
+   timestamp, format 1 the producer's or the clock's - paired with the offsets written; [plain] = codec bits 0,
+   key and value byte strings or null.) *)
+
+(* uncompressed sets (this is Proofs.Truncation.complete_set, shared with C12) *)
+Theorem C05_afkak_plain_roundtrip : forall d orc clock k msgs offset incr magic bs,
+  forallb plain msgs = true ->
+  encode_message_set_from clock k msgs offset incr magic = Ok bs ->
+  dec_set (S d) orc bs = (expected clock k msgs offset incr, None).
+Proof. exact complete_set. Qed.
+Print Assumptions C05_afkak_plain_roundtrip.
+
+(* create_gzip_message + _encode_message_set + decode: every message comes back; a format-0 wrapper passes the stored
+   inner offsets through, a format-1 wrapper relocates them *)
+Theorem C05_afkak_gzip_roundtrip : forall orc,
+  (forall x z, bytes_ok x = true -> gz_enc orc x = Ok z -> gz_dec orc z = Ok x /\ bytes_ok z = true) ->
+  forall d clock k k' msgs magic w off incr mg bs,
+  forallb plain msgs = true ->
+  create_gzip_message orc clock k msgs magic = Ok w ->
+  encode_message_set_from clock k' [w] off incr mg = Ok bs ->
+  dec_set (S (S d)) orc bs
+  = ((if (magic =? 0) then expected clock k msgs 0 0 else absolute off (expected clock k msgs 0 0)), None).
+Proof. exact gzip_set_roundtrip. Qed.
+Print Assumptions C05_afkak_gzip_roundtrip.
+
+(* afkak writes every inner offset as 0, so the format-1 wrapper at [off] reports all its messages at [off] *)
+Theorem C05_afkak_gzip_offsets : forall clock k msgs off,
+  absolute off (expected clock k msgs 0 0) = map (fun om => (off, snd om)) (expected clock k msgs 0 0).
+Proof. exact c05_afkak_gzip_offsets. Qed.
+Print Assumptions C05_afkak_gzip_offsets.
+
+(* a wrapper of a wrapper (nesting depth 2), any combination of the two formats *)
+Theorem C05_afkak_gzip_nested_roundtrip : forall orc,
+  (forall x z, bytes_ok x = true -> gz_enc orc x = Ok z -> gz_dec orc z = Ok x /\ bytes_ok z = true) ->
+  forall d clock k k1 k2 msgs magic1 w1 magic2 w2 off incr mg bs,
+  forallb plain msgs = true ->
+  create_gzip_message orc clock k msgs magic1 = Ok w1 ->
+  create_gzip_message orc clock k1 [w1] magic2 = Ok w2 ->
+  encode_message_set_from clock k2 [w2] off incr mg = Ok bs ->
+  let inner := if (magic1 =? 0) then expected clock k msgs 0 0 else absolute 0 (expected clock k msgs 0 0) in
+  dec_set (S (S (S d))) orc bs = ((if (magic2 =? 0) then inner else absolute off inner), None).
+Proof. exact gzip_nested_roundtrip. Qed.
+Print Assumptions C05_afkak_gzip_nested_roundtrip.
+
+(* ================================================================== 4. outside the supported versions
    afkak supports Produce / Fetch versions 0 and 2 only (kafkacodec.py:559 "we only support 2 versions"); a
    negotiated version >= 2 is sent as 2.  The version-1 layouts are NOT decoded: recorded here so that the boundary
    of the theorems above is explicit (harness/props/C05.py replays both on the real code as notes). *)
@@ -262,3 +317,22 @@ Example ex_fetch_sets_wf :
   wf_t_fetch ex_gz 3 (mk_t_fetch 1 0 [mk_t_fetch_topic ex_topic
      [mk_t_fetch_part 0 0 104 (Some ex_forest); mk_t_fetch_part 1 1 (-1) None; mk_t_fetch_part 2 0 0 (Some [])]]) = true.
 Proof. vm_compute. reflexivity. Qed.
+
+(* afkak's own encoder with the marker codec: two format-1 messages (one without a timestamp: the clock's reading
+   is used), gzip-wrapped by create_gzip_message, stored at offset 500 *)
+Definition ex_clock : nat -> Z := fun k => 1600000000000 + Z.of_nat k.
+Definition ex_msgs : list message :=
+  [mkMessage 1 0 (Some [107]) (Some [1; 2; 3]) None; mkMessage 1 0 None None (Some (-1))].
+
+Example ex_marker_oracle_law : forall x z,
+  bytes_ok x = true -> gz_enc marker_oracle x = Ok z -> gz_dec marker_oracle z = Ok x /\ bytes_ok z = true.
+Proof. intros x z Hx [= <-]. split; [reflexivity|]. cbn [bytes_ok forallb]. exact Hx. Qed.
+
+Example ex_afkak_gzip :
+  forallb plain ex_msgs = true /\
+  exists w bs, create_gzip_message marker_oracle ex_clock 0 ex_msgs 1 = Ok w /\
+               encode_message_set_from ex_clock 2 [w] 500 1 1 = Ok bs /\
+               dec_set 2 marker_oracle bs
+               = ([(500, mkMessage 1 0 (Some [107]) (Some [1; 2; 3]) (Some 1600000000000));
+                   (500, mkMessage 1 0 None None (Some (-1)))], None).
+Proof. split; [vm_compute; reflexivity|]. eexists. eexists. split; [vm_compute; reflexivity|]. split; vm_compute; reflexivity. Qed.
